@@ -52,7 +52,16 @@ def compare(pid, case, mline, iline):
         if m["regs"] != m["docregs"]:
             diffs.append(("model-visit-vs-refs", m["docregs"], m["regs"]))
     elif pid == "C11" and gen_expr.has_leafv(case.term):
-        pass            # by-value leaves see copies by design: these directed cases are for C10 (values)
+        # by-value leaves see copies by design (identities are not compared), but "an argument declared by value
+        # arrives equal to the emitted value": the values are
+        c2 = gen_expr.has_compose2(case.term)
+        key = (lambda x: log_entries(x)) if c2 else (lambda x: x)
+        doc = strip_idents(m["doc"])
+        for route in ("rvalue", "direct", "slot", "signal"):
+            if route in i:
+                b = strip_idents(i[route])
+                if key(b) != key(doc):
+                    diffs.append((route + "-values-vs-documented", doc, b))
     else:
         c2 = gen_expr.has_compose2(case.term)
         norm = (lambda x: strip_idents(x)) if pid == "C10" else (lambda x: x)
